@@ -7,18 +7,23 @@ from ..machine import SimWorld, make_machine, replay_trace
 
 
 @st.composite
-def base_cfg(draw, limits="loose", multi_strategy=True, tx_limits=(5000,), custom_control=False, market_types=("WIN", "WIN", "PLACE", "MATCH_ODDS"), handicaps=False):
+def base_cfg(draw, limits="loose", multi_strategy=True, tx_limits=(5000,), custom_control=False, market_types=("WIN", "WIN", "PLACE", "MATCH_ODDS"), handicaps=False, line=False, extra=None):
     nr = draw(st.integers(2, 4))
     mt = draw(st.sampled_from(list(market_types)))
     spec = world.default_market(0, nr)
     spec["market_type"] = mt
     if mt == "PLACE":
         spec["number_of_winners"] = 2 if nr > 2 else 1
+    if line and draw(st.integers(0, 4)) == 0:
+        iv = draw(st.sampled_from([0.5, 1.0]))
+        spec["ladder"] = {"type": "LINE_RANGE", "min": 0.5, "max": 0.5 + 400 * iv, "interval": iv}
+        spec["betting_type"] = "LINE"
+        spec["market_type"] = mt = "LINE"
     if handicaps and draw(st.integers(0, 2)) == 0:
         # asian-handicap style: the same selection id on several handicap lines
         spec["market_type"] = mt = "ASIAN_HANDICAP"
         spec["runners"] = [{"id": 1001 + (i % 2), "hc": [-0.5, 0.5, -1.5, 1.5][i], "af": None} for i in range(nr)]
-    spec["bsp_market"] = mt not in ("MATCH_ODDS", "ASIAN_HANDICAP") and draw(st.integers(0, 3)) > 0
+    spec["bsp_market"] = mt not in ("MATCH_ODDS", "ASIAN_HANDICAP", "LINE") and draw(st.integers(0, 3)) > 0
     spec["persistence_enabled"] = draw(st.integers(0, 5)) > 0
     ns = draw(st.integers(1, 3)) if multi_strategy else 1
     nc = draw(st.integers(1, 2))
@@ -45,6 +50,8 @@ def base_cfg(draw, limits="loose", multi_strategy=True, tx_limits=(5000,), custo
     if custom_control and draw(st.integers(0, 2)) == 0:
         cfg["custom_control"] = {"kinds": draw(st.sampled_from([["cancel"], ["update", "replace"], ["place", "cancel", "update", "replace"]])),
                                  "parity": draw(st.integers(0, 1))}
+    if extra:
+        cfg.update(extra)
     return cfg
 
 
